@@ -25,6 +25,8 @@ RULE = ("one PRNG; imagers on NON-square grids (rx, ry in 1..7, rx != ry in 6 of
         "with scalar variance (float/int/np.float64), 2x2 matrix (list/array/tuple) with equal or unequal variances, zero or "
         "non-zero covariance (|r| up to 0.99, equal-variance correlated included), uniform box, user callables; weights: "
         "persistence (n random), linear_ramp (random low/high/start/end, all three branches), user callable. "
+        "a point in 8 lies BELOW the diagonal (negative persistence: sign kept for odd n, NaN image for fractional n, `low` for the ramp); "
+        "ramp and user weights are scaled by 1e-12 / 1e-9 / 1 / 1e6 (tolerances are relative to the total absolute weight). "
         "non-trivial = at least one point of non-zero weight whose kernel puts mass > 1e-6 inside the grid; distinct by digest of the case")
 ASSUMPTIONS = [
     "the kernel called on the flat corner arrays acts elementwise (true of the built-in kernels; the model's `vectorize`)",
@@ -34,6 +36,14 @@ ASSUMPTIONS = [
 ]
 TRUSTED = [py2lean.trusted_note("weights"),
            "scipy.special.ndtr, scipy.integrate.quad/dblquad as independent oracles of the [T] streams"]
+
+# theorems that carry a clause of the property (of 20 in Props/C04.lean); not listed: `rfl` restatements (skew_is_bp, toBP_spec,
+# persistence_weight_on_persistence, effKernel_general, dispatch_ignores_s10), helpers (uniformAt_apply, dispatch_general_iff,
+# bad_mesh_rejected) and the documentation of a totalisation (linearRamp_degenerate)
+CORE_THEOREMS = ["PersimVerif.C04." + n for n in (
+    "pixel_is_weighted_mass", "rect_mass_of_cdf", "pixel_is_kernel_mass", "pixel_is_normal_mass_isotropic",
+    "pixel_is_normal_mass_diag", "pixel_is_box_mass", "fast_path_eq_general", "fast_pixel_outer_product", "dispatch_fast_iff",
+    "linearRamp_branches", "linearRamp_joints")]
 
 TOL_ASM = 1e-12
 TOL_FAST = 1e-9
@@ -313,8 +323,25 @@ def spec_pixel(case, bpn, ppn, i, j, how="best"):
 
 
 def wscale(case):
+    """the scale every tolerance of this file is RELATIVE to: the total absolute weight of the diagram (every pixel is a sum of
+    w_k * mass_k with 0 <= mass_k <= 1).  No floor at 1: with tiny weights (scale 2^-10, persistence**3 ~ 1e-9) an absolute
+    1e-6 would accept any image.  The 1e-300 floor only keeps an all-zero-weight diagram comparable (its image must be 0)."""
     ws = [abs(x) for x in weights_independent(case, to_bp(case)) if math.isfinite(x)]
-    return max(1.0, sum(ws))
+    return max(1e-300, sum(ws))
+
+
+def sc0(case):
+    return sum(abs(x) for x in weights_independent(case, to_bp(case)) if math.isfinite(x))
+
+
+def within(x, y, tol, sc):
+    """|x - y| <= tol * sc (sc = wscale, not floored at 1); NaN matches NaN, an infinity only itself"""
+    x, y = float(x), float(y)
+    if math.isnan(x) or math.isnan(y):
+        return math.isnan(x) and math.isnan(y)
+    if math.isinf(x) or math.isinf(y):
+        return x == y
+    return abs(x - y) <= tol * sc
 
 
 # ----------------------------------------------------------------------------- generators
@@ -374,20 +401,29 @@ def gen_weight(r, pr, scale, dyadic):
             return {"kind": "linear_ramp", "low": low, "high": high, "start": start, "end": start + width, "as": r.choice(["str", "callable"])}
         start = pr[0] + r.uniform(-0.2, 0.8) * h
         end = start + r.uniform(0.05, 1.0) * h
-        return {"kind": "linear_ramp", "low": r.choice([0.0, r.uniform(0, 2), r.uniform(0, 2)]), "high": r.uniform(0, 2), "start": start, "end": end,
-                "as": r.choice(["str", "callable"])}
-    return {"kind": "user", "a": r.uniform(0, 2), "c": r.uniform(0, 2) / (scale * scale)}
+        mag = r.choice([1.0, 1.0, 1.0, 1.0, 1e-9, 1e-12, 1e6])      # tiny / huge total weights: the tolerances are relative to sum|w|
+        return {"kind": "linear_ramp", "low": r.choice([0.0, r.uniform(0, 2), r.uniform(0, 2)]) * mag, "high": r.uniform(0, 2) * mag,
+                "start": start, "end": end, "as": r.choice(["str", "callable"])}
+    mag = r.choice([1.0, 1.0, 1.0, 1.0, 1e-9, 1e-12, 1e6])
+    return {"kind": "user", "a": r.uniform(0, 2) * mag, "c": r.uniform(0, 2) / (scale * scale) * mag}
 
 
 def gen_points(r, br, pr, ps, rx, ry, dyadic, n):
-    """n points in birth-persistence coordinates: inside / on mesh lines / outside / far / diagonal / duplicates"""
+    """n points in birth-persistence coordinates: inside / on mesh lines / outside / far / diagonal / duplicates /
+    BELOW the diagonal (negative persistence: a (b,d) row with d < b, or a negative second column with skew=False —
+    persistence**n keeps the sign for odd n, is NaN for fractional n; linear_ramp gives `low`)"""
     bp = []
     gx = [br[0] + t * ps for t in range(rx + 1)]
     gy = [pr[0] + t * ps for t in range(ry + 1)]
     for _ in range(n):
-        where = r.choice(["inside", "inside", "border", "outside", "far", "diag", "dup"])
+        where = r.choice(["inside", "inside", "border", "outside", "far", "diag", "dup", "below"])
         if where == "dup" and bp:
             bp.append(list(r.choice(bp)))
+            continue
+        if where == "below":
+            b = br[0] + dy(r, -1, rx + 1, 4) * ps if dyadic else r.uniform(br[0] - ps, br[1] + ps)
+            p = -(dy(r, 0.25, ry + 1, 4) * ps if dyadic else r.choice([r.uniform(0.0, 1.0) * ps, r.uniform(0.0, ry + 1.0) * ps, 0.5 * ps]))
+            bp.append([b, p])
             continue
         if dyadic:
             b = br[0] + dy(r, -1, rx + 1, 4) * ps
@@ -498,7 +534,11 @@ def nontrivial(case, bpn, ppn):
 def img_close(a, b, tol, scale):
     if isinstance(b, str) or isinstance(a, str):
         return a == b
-    return common.close_nested(a, b, tol, scale)
+    try:
+        return len(a) == len(b) and all(len(ra) == len(rb) and all(within(x, y, tol, scale) for x, y in zip(ra, rb))
+                                        for ra, rb in zip(a, b))
+    except TypeError:
+        return False
 
 
 def maxdiff_pixel(a, b):
@@ -532,7 +572,7 @@ def property_fails(case, code_img, bpn, ppn, res, focus=None, budget=40):
         cells = cells[:budget]
     for (i, j) in cells:
         s = spec_pixel(case, bpn, ppn, i, j)
-        if not (abs(float(a[i, j]) - s) <= TOL_MASS * sc) and not (math.isnan(s) and math.isnan(float(a[i, j]))):
+        if not within(a[i, j], s, TOL_MASS, sc):
             return "pixel [birth %d][persistence %d] = %r but sum_k w_k*mass_k = %r" % (i, j, float(a[i, j]), s)
     return None
 
@@ -545,6 +585,7 @@ def pre_build(ctx):
 def run(ctx):
     py2lean.report_broken(ctx, PROP_FILES)
     r = ctx.rng
+    ctx.extra["core_theorems"] = CORE_THEOREMS
     n = ctx.n(3000, 30000)
     corpus = corpus_cases()
     cases = corpus + [gen_case(ctx, kind=KINDS[i % len(KINDS)] if i < 3 * len(KINDS) else None) for i in range(n)] \
@@ -595,12 +636,19 @@ def run(ctx):
     # compare
     pi = 0
     pix_budget = ctx.n(500, 5000)
+    deferred, slow_search_budget = [], 60
     for ci, (case, (st, v, path, bpn, ppn, res)) in enumerate(zip(cases, reals)):
         code = ("err:" + v) if st == "err" else common.tolist(v)
         nt = st == "ok" and nontrivial(case, bpn, ppn)
         ctx.case({"op": "transform", **case}, nt, sample_every=53)
         ctx.count("kernel:" + case["kind"]); ctx.count("weight:" + case["weight"]["kind"]); ctx.count("points:%d" % len(case["dgm"]))
         ctx.count("skew:%s" % case["skew"]); ctx.count("res:%dx%d" % res if max(res) <= 3 else "res:larger")
+        _bp = to_bp(case)
+        if any(q[1] < 0 for q in _bp):
+            ctx.count("has_point_below_diagonal")
+            if any(math.isnan(x) for x in weights_independent(case, _bp)):
+                ctx.count("below_diagonal_fractional_exponent_NaN_image")
+        ctx.count("total_weight:%s" % ("0" if sc0(case) == 0 else "<1e-6" if sc0(case) < 1e-6 else "<1" if sc0(case) < 1 else ">=1"))
         if st == "err":
             ctx.count("code_error:" + v)
         sc = wscale(case)
@@ -642,7 +690,7 @@ def run(ctx):
                 for _ in range(2):
                     i, j = r.randrange(res[0]), r.randrange(res[1])
                     s = spec_pixel(case, bpn, ppn, i, j)
-                    ok = abs(float(a[i, j]) - s) <= TOL_MASS * sc
+                    ok = within(a[i, j], s, TOL_MASS, sc)
                     ctx.test("mass_quad1d_correlated", ok)
                     pix_budget -= 1
                     if not ok:
@@ -650,16 +698,29 @@ def run(ctx):
             if fail is not None:
                 ctx.violation("pixel is not the weighted kernel mass: " + fail, {"op": "transform", **case}, found_input=True, law="mass")
                 bad = []
+        # a broken correspondence is not by itself a violation: look for a pixel where the PROPERTY fails on this input; if
+        # there is none, keep the disagreement and go on searching on the remaining cases (reported at the end, at most 2)
         for (op, what, li) in bad:
             focus = maxdiff_pixel(code, answers[li]) if op != "dispatch" and not isinstance(code, str) else None
-            fail = property_fails(case, code, bpn, ppn, res, focus=focus)
-            ctx.violation("%s; %s" % (what, fail or "the independent mass oracle agrees with the code on this input"),
-                          {"op": "transform", **case} if fail else {"correspondence": "img." + op, "line": lines[li][:1500], "code": code, "model": answers[li], **case},
-                          found_input=fail is not None, correspondence="img." + op)
+            slow = mass_closed(case["kernel"], [0.0, 0.0], 0.0, 1.0, 0.0, 1.0) is None
+            if slow and slow_search_budget <= 0 and not isinstance(code, str):
+                fail = None
+            else:
+                slow_search_budget -= 1 if slow else 0
+                fail = property_fails(case, code, bpn, ppn, res, focus=focus)
+            if fail is not None:
+                ctx.violation("%s; %s" % (what, fail), {"op": "transform", **case}, found_input=True, correspondence="img." + op)
+            else:
+                ctx.count("correspondence_disagreements_without_failing_pixel")
+                if len(deferred) < 2:
+                    deferred.append((what, {"correspondence": "img." + op, "line": lines[li][:1500], "code": code, "model": answers[li], **case}, op))
             break
         if len(ctx.violations) > 5:
             return
     density_stream(ctx)
+    for what, rec, op in deferred:
+        ctx.violation("%s; the independent mass oracle agrees with the code on this input" % what, rec, found_input=False,
+                      correspondence="img." + op)
 
 
 def anchored_only(cov):
@@ -705,8 +766,8 @@ def density_stream(ctx):
         sc = wscale(case)
         s2 = spec_pixel(case, bpn, ppn, i, j, how="dblquad")
         s1 = spec_pixel(case, bpn, ppn, i, j)
-        ok2 = abs(float(a[i, j]) - s2) <= TOL_MASS * sc
-        ok1 = abs(float(a[i, j]) - s1) <= TOL_MASS * sc
+        ok2 = within(a[i, j], s2, TOL_MASS, sc)
+        ok1 = within(a[i, j], s1, TOL_MASS, sc)
         done += 1
         ctx.count("density_pixels:" + kind)
         if not ok2 and ok1:
@@ -751,26 +812,32 @@ def replay(ctx, rep):
     st, v, path, bpn, ppn, res = run_real(c)
     print("code:", st, (np.asarray(v).tolist() if st == "ok" else v), "path:", path)
     fail = property_fails(c, ("err:" + v) if st != "ok" else v, bpn, ppn, res, budget=200)
-    print("independent oracle:", fail or "every checked pixel equals sum_k w_k * mass_k within 1e-6")
+    print("independent oracle:", fail or "every checked pixel equals sum_k w_k * mass_k within 1e-6 * sum_k |w_k|")
     return fail is None
 
 
 MANIFEST = {
-    "text": "Proof, modulo the Gaussian kernel being the bivariate normal CDF (that is C13's partial part): Lean theorems about the model of "
-            "_transform over any ordered field / the reals, for every mesh, diagram, weight function and kernel function: "
-            "pixel[i][j] (i = birth, j = persistence) = sum_k w_k*(F_k(b_i+1,p_j+1) - F_k(b_i,p_j+1) - F_k(b_i+1,p_j) + F_k(b_i,p_j)); "
-            "for a finite measure with CDF F that corner combination is the mass of the half-open pixel rectangle (Mathlib measure theory), "
-            "so a pixel is sum_k w_k mu_k(pixel); the isotropic fast path equals the general path for the product-of-normals kernel standardised "
-            "by the square root of the variance; the fast path is taken iff the kernel is the Gaussian with scalar or isotropic sigma; "
-            "(b,d) -> (b,d-b); weights persistence p^n and the three branches of linear_ramp. The model is tied to the code on every run: "
-            "full image matrices on non-square grids against the model fed with the real kernel's corner values (1e-12), the model's own fast / "
-            "zero-covariance / uniform paths at Float (1e-9), exact rational equality for the uniform kernel on dyadic inputs, and the dispatch "
-            "decision against call counters.",
+    "text": "Proof (20 theorems, of which 11 core), for the correlated Gaussian modulo bvn_cdf being the bivariate normal CDF (C13's partial "
+            "part): Lean theorems about the model of _transform over any ordered field / the reals, for every mesh, diagram, weight function "
+            "and kernel function: pixel[i][j] (i = birth, j = persistence) = sum_k w_k*(F_k(b_i+1,p_j+1) - F_k(b_i,p_j+1) - F_k(b_i+1,p_j) + "
+            "F_k(b_i,p_j)); for a finite measure with CDF F that corner combination is the mass of the half-open pixel rectangle (Mathlib "
+            "measure theory), so a pixel is sum_k w_k mu_k(pixel). Composed with C13 for the built-in kernels that C13 proves to be CDFs, with "
+            "NO kernel hypothesis left: Gaussian with zero covariance, on the isotropic fast path and on the general path, pixel = sum_k w_k * "
+            "(N(b_k,v_b) x N(p_k,v_p))(pixel); uniform kernel, pixel = sum_k w_k * area(pixel & box_k)/(W*H). The isotropic fast path equals "
+            "the general path for the product-of-normals kernel standardised by the square root of the variance; the fast path is taken iff "
+            "the kernel is the Gaussian with scalar or isotropic sigma; (b,d) -> (b,d-b); weights persistence p^n and the three branches of "
+            "linear_ramp (middle branch under start != end). The model is tied to the code on every run: full image matrices on non-square "
+            "grids against the model fed with the real kernel's corner values (1e-12 x total weight), the model's own fast / zero-covariance "
+            "/ uniform paths at Float (1e-9 x total weight), exact rational equality for the uniform kernel on dyadic inputs, and the "
+            "dispatch decision against call counters; diagrams include points below the diagonal (negative persistence).",
     "note": "Trusted: Lean kernel + Mathlib (axioms propext/Classical.choice/Quot.sound); the correspondence harness; NumPy slicing/broadcast "
-            "semantics as modelled; mesh and resolution taken from the imager (C12). NOT proved: that bvn_cdf is the bivariate normal CDF "
-            "(C13); [T] streams compare pixels of the real code with masses computed independently of persim (closed forms on all pixels, "
-            "1-D quadrature of the marginalised density for correlated Gaussians, scipy dblquad of the density on 10 / 64 random pixels) to 1e-6. "
-            "Float rounding is outside the theorems.",
+            "semantics as modelled; mesh and resolution taken from the imager (C12; composed in C12.reachable_image_shape). NOT proved: that "
+            "bvn_cdf is the bivariate normal CDF (C13) - for the correlated Gaussian and for user kernels pixel_is_kernel_mass keeps the "
+            "hypothesis hcdf; that scipy's erfc-based norm_cdf is the standard normal CDF (C13's contract). [T] streams compare pixels of "
+            "the real code with masses computed independently of persim (closed forms on all pixels, 1-D quadrature of the marginalised "
+            "density for correlated Gaussians on 2 random pixels of up to 500 / 5000 images, scipy dblquad of the density on 30 / 120 random "
+            "pixels, quick / thorough) to 1e-6 RELATIVE to the total absolute weight of the diagram (no floor at 1: tiny weights are not "
+            "accepted vacuously). Float rounding is outside the theorems.",
     "technique": "Lean 4 theorems (incl. Mathlib measure theory) over a hand-written model + differential correspondence + numerical integration tests",
 }
 MANIFEST["note"] += " " + py2lean.manifest_note("weights")
